@@ -282,7 +282,11 @@ func (f *File) Collected() []byte {
 }
 
 func (f *File) Stat() (os.FileInfo, error) {
-	return &fileInfo{name: f.name, size: int64(len(f.data)), mode: 0o600}, nil
+	fi := &fileInfo{name: f.name, size: int64(len(f.data)), mode: 0o600, node: f.node}
+	if f.node != nil {
+		fi.size, fi.mtime, fi.mode = int64(len(f.node.Data)), f.node.MTime, f.node.Mode
+	}
+	return fi, nil
 }
 
 func (f *File) Chmod(mode os.FileMode) error { return nil }
